@@ -75,7 +75,10 @@ static inline __attribute__((always_inline)) void merge_check(T v1, T v2, const 
   for (size_t i = 0; i <= NB; i++) ok = ok && pm.counts_[i] == pc.counts_[i];
   for (size_t i = 0; i < NB; i++) ok = ok && pm.boundaries_[i] == pc.boundaries_[i];
   __VERIFIER_assert(ok, l_counts);
-  __VERIFIER_assert(nostd::get<T>(pm.sum_) == nostd::get<T>(pc.sum_), l_sum);
+  // integer sums are associative; floating sums are compared with fl(sumA + sumB), which is all the property can mean
+  auto pa = nostd::get<m::HistogramPointData>(a.ToPoint()); auto pb = nostd::get<m::HistogramPointData>(b.ToPoint());
+  if (std::is_same<T, int64_t>::value) __VERIFIER_assert(nostd::get<T>(pm.sum_) == nostd::get<T>(pc.sum_), l_sum);
+  else __VERIFIER_assert(nostd::get<T>(pm.sum_) == nostd::get<T>(pa.sum_) + nostd::get<T>(pb.sum_), l_sum);
   __VERIFIER_assert(pm.record_min_max_ && nostd::get<T>(pm.min_) == nostd::get<T>(pc.min_) && nostd::get<T>(pm.max_) == nostd::get<T>(pc.max_), l_minmax);
 }
 ENTRY h_long_merge() {
